@@ -8,7 +8,7 @@ WT=/tmp/wt-$P
 OUT=/verif/seeded/$P
 mkdir -p $OUT
 cd $WT || exit 1
-git diff -- src > /tmp/seed-$P.diff
+git add -N src 2>/dev/null; git diff -- src > /tmp/seed-$P.diff
 if ! cmp -s /tmp/seed-$P.diff seeded/patch.diff; then echo "note: patch.diff differs from working tree diff; using working tree diff"; fi
 cp /tmp/seed-$P.diff $OUT/patch.diff
 for f in seeded/*; do case "$f" in seeded/patch.diff) ;; *) cp -r "$f" $OUT/ ;; esac; done
@@ -17,9 +17,9 @@ RUSTFLAGS=-Awarnings cargo test --offline 2>&1 | grep -E "^test result|FAILED|pa
 DEMO=$(ls seeded/demo.pakhi seeded/main.pakhi 2>/dev/null | head -1)
 if [ -n "$DEMO" ]; then
   echo "== demo WITH change"; (cd seeded && timeout 60 env RUSTFLAGS=-Awarnings cargo run --offline --quiet -- $(basename $DEMO) > /tmp/seed-$P.with 2>&1; echo "exit=$?" >> /tmp/seed-$P.with); head -c 1500 /tmp/seed-$P.with
-  git stash -q
+  git apply -R /tmp/seed-$P.diff || { echo '!! cannot reverse the change'; }
   echo "== demo WITHOUT change"; (cd seeded && timeout 60 env RUSTFLAGS=-Awarnings cargo run --offline --quiet -- $(basename $DEMO) > /tmp/seed-$P.without 2>&1; echo "exit=$?" >> /tmp/seed-$P.without); head -c 1500 /tmp/seed-$P.without
-  git stash pop -q
+  git apply /tmp/seed-$P.diff || { echo '!! cannot re-apply the change'; }
   if cmp -s /tmp/seed-$P.with /tmp/seed-$P.without; then echo "!! demo does not distinguish"; else echo "== demo distinguishes: yes"; fi
   cp /tmp/seed-$P.with $OUT/observed_with.verified.txt; cp /tmp/seed-$P.without $OUT/expected_without.verified.txt
 fi
@@ -27,5 +27,5 @@ echo "== checks against the change in /repo"
 cd /repo && git apply $OUT/patch.diff || { echo "patch does not apply to /repo"; exit 1; }
 cd /verif
 for C in $PROP "$@"; do ./check $C quick > /tmp/seed-$P-$C.log 2>&1; echo "$C exit=$? : $(grep -c '^VIOLATION' /tmp/seed-$P-$C.log) VIOLATION lines; $(tail -1 /tmp/seed-$P-$C.log)"; grep -m3 -A2 '^VIOLATION' /tmp/seed-$P-$C.log | cut -c1-300; done
-git -C /repo checkout -- . ; git -C /repo status --short | head -3
+git -C /repo checkout -- . ; git -C /repo clean -fdq src ; git -C /repo status --short | head -3
 rm -rf /verif/replays
